@@ -80,7 +80,7 @@ Lemma no_param_left N sc c v :
   comp_args N sc c = (v, [], false) -> needs_more (c_vars c) v = false.
 Proof.
   unfold comp_args. destruct (needs_more (c_vars c) (c_args c)) eqn:E.
-  - destruct (subst _ _ _) as [v'| |]; try discriminate.
+  - destruct (subst_d _ _ _) as [v'| |]; try discriminate.
     destruct (needs_more (c_vars c) v') eqn:E'; [discriminate|].
     intros H; inversion H; subst; exact E'.
   - intros H; inversion H; subst; exact E.
@@ -145,16 +145,88 @@ Proof.
     rewrite (subst_tok_closed _ _ _ _ CE T), (IH _ CE eq_refl). reflexivity.
 Qed.
 
+(* ------------------------------------------------------------------ mapping (dictionary) values *)
+(* a mapping returned whole is the value some parameter is bound to *)
+Lemma dict_ref_whole env ign : forall v pre vx,
+  dict_ref env ign pre v = DWhole vx -> exists x, lookup x env = Some vx /\ is_dict vx = true.
+Proof.
+  induction v as [|t r IH]; intros pre vx H; cbn in H; [discriminate|].
+  destruct t as [s|x|p m|x p m].
+  - eapply IH; eauto.
+  - destruct (mem x ign); [eapply IH; eauto|].
+    destruct (lookup x env) as [vy|] eqn:L; [|discriminate].
+    destruct (is_dict vy) eqn:D; [|eapply IH; eauto].
+    destruct (pre && forallb empty_lit r); [|discriminate].
+    inversion H; subst. exists x. auto.
+  - eapply IH; eauto.
+  - destruct (mem x ign); [eapply IH; eauto|].
+    destruct (lookup x env) as [vy|]; [|discriminate].
+    destruct (is_dict vy); [discriminate|eapply IH; eauto].
+Qed.
+
+(* a spliced mapping is referenced by a name that is not ignored: the substitution is attempted *)
+Lemma dict_ref_splice_needs env ign : forall v pre,
+  dict_ref env ign pre v = DSplice -> needs_more ign v = true.
+Proof.
+  induction v as [|t r IH]; intros pre H; cbn in H; [discriminate|].
+  change (t :: r) with ([t] ++ r). rewrite needs_more_app.
+  destruct t as [s|x|p m|x p m].
+  - rewrite (IH _ H). apply orb_true_r.
+  - destruct (mem x ign) eqn:M; [rewrite (IH _ H); apply orb_true_r|].
+    unfold needs_more at 1. cbn. rewrite M. reflexivity.
+  - rewrite (IH _ H). apply orb_true_r.
+  - destruct (mem x ign) eqn:M; [rewrite (IH _ H); apply orb_true_r|].
+    unfold needs_more at 1. cbn. rewrite M. reflexivity.
+Qed.
+
+Lemma subst_d_closed env ign v v' :
+  closed_env ign env -> subst_d env ign v = SOk v' -> needs_more ign v' = false.
+Proof.
+  intros CE H. unfold subst_d in H. destruct (dict_ref env ign true v) as [|vx|] eqn:D.
+  - eapply subst_closed; eauto.
+  - inversion H; subst. destruct (dict_ref_whole _ _ _ _ _ D) as [x [L _]].
+    eapply CE. eapply lookup_in; eauto.
+  - discriminate.
+Qed.
+
+(* the rejection half: a value that splices a mapping into more text is a ValueError of the substitution *)
+Lemma subst_d_splice env ign v : dict_ref env ign true v = DSplice -> subst_d env ign v = SUnknown.
+Proof. intros D. unfold subst_d. rewrite D. reflexivity. Qed.
+
+(* the acceptance half: a sole reference to a mapping forwards the mapping itself *)
+Lemma subst_d_whole env ign x vx :
+  mem x ign = false -> lookup x env = Some vx -> is_dict vx = true -> subst_d env ign [Param x] = SOk vx.
+Proof. intros M L D. unfold subst_d. cbn. rewrite M, L, D. reflexivity. Qed.
+
 Lemma resolve_one_round f scs cur ign v p v' :
   needs_more ign v = true ->
   find_scope (parent_loc cur) scs = Some p ->
   closed_env ign (s_pars p) ->
-  subst (s_pars p) ign v = SOk v' -> well_shaped v' = true ->
+  subst_d (s_pars p) ign v = SOk v' -> well_shaped v' = true ->
   resolve_loop (S f) scs cur ign v = SOk v'.
 Proof.
   intros NM FS CE SB WS. cbn. rewrite NM, FS, SB, WS.
-  pose proof (subst_closed _ _ _ _ CE SB) as C.
+  pose proof (subst_d_closed _ _ _ _ CE SB) as C.
   destruct f; cbn; rewrite C; reflexivity.
+Qed.
+
+(* scope level: the argument of a step that splices a mapping of the calling workflow into more text is refused
+   by the walk up the scopes (resolve_parameter_references_of_instance records the ValueError) *)
+Lemma resolve_loop_splice f scs cur ign v p :
+  find_scope (parent_loc cur) scs = Some p ->
+  dict_ref (s_pars p) ign true v = DSplice ->
+  resolve_loop (S f) scs cur ign v = SUnknown.
+Proof.
+  intros FS D. cbn. rewrite (dict_ref_splice_needs _ _ _ _ D), FS, (subst_d_splice _ _ _ D). reflexivity.
+Qed.
+
+(* component level: command.arguments that splice a mapping parameter of the component into more text are
+   reported at components/i/command/arguments *)
+Lemma comp_args_splice N sc c :
+  dict_ref (s_pars sc) (c_vars c) true (c_args c) = DSplice ->
+  comp_args N sc c = (c_args c, [comp_index N c ++ [LS "command"; LS "arguments"]], false).
+Proof.
+  intros D. unfold comp_args. rewrite (dict_ref_splice_needs _ _ _ _ D), (subst_d_splice _ _ _ D). reflexivity.
 Qed.
 
 Lemma resolve_nothing fuel scs cur ign v :
